@@ -34,11 +34,46 @@ static void one_mod(int lv, ul m, const std::vector<ul> &script) {
 	if (v >= m) propfail("rmod-range", ctx + " returned " + std::to_string(v));
 	size_t nw = coins.size() / 8;
 	if (coins.size() % 8 || nw == 0) { propfail("rmod-coins", ctx + " consumed " + std::to_string(coins.size()) + " random bytes"); return; }
-	for (size_t i = 0; i + 1 < nw; i++)
-		if (word_accepted(word_at(coins, i), m)) { propfail("rmod-accept", ctx + " skipped the unbiased raw word " + std::to_string(word_at(coins, i))); return; }
+	// which words are accepted is judged by the style-independent bias_oracle (rmod-bias); a different but unbiased
+	// acceptance set only shows up as a model/code disagreement
 	ul last = word_at(coins, nw - 1);
-	if (!word_accepted(last, m)) propfail("rmod-accept", ctx + " accepted the raw word " + std::to_string(last) + " outside [0, floor(2^64/m)*m): residues below 2^64 mod m get one more preimage");
-	else if (v != last % m) propfail("rmod-value", ctx + " returned " + std::to_string(v) + " for the raw word " + std::to_string(last));
+	if (v != last % m) propfail("rmod-value", ctx + " returned " + std::to_string(v) + " for the accepted raw word " + std::to_string(last));
+}
+
+// does the sampler accept the raw word w as its first word?  (w is scripted first; a fresh stream follows)
+static bool accepts(int lv, ul m, ul w) {
+	coin_script().clear(); script_ulong(w);
+	coin_log().clear(); coin_logging() = true;
+	(void)call_mod(lv, m);
+	coin_logging() = false;
+	size_t used = coin_log().size(); coin_log().clear(); coin_script().clear();
+	return used == 8;
+}
+// Style-independent unbiasedness oracle: the set of accepted raw words is located by bisection (it is an interval
+// [lo, hi) for every rejection sampler of this kind: [0, lim) here, [min, 2^64) in the arc4random style); the result
+// is w mod m, so every residue is equally likely iff hi - lo is a positive multiple of m.
+static void bias_oracle(int lv, ul m) {
+	std::string ctx = "tmcg_mpz_" + std::string(LV[lv]) + "random_mod(" + std::to_string(m) + ")";
+	bool a0 = accepts(lv, m, 0), a1 = accepts(lv, m, ULONG_MAX);
+	unsigned __int128 W = (unsigned __int128)1 << 64, lo = 0, hi = W;
+	ul inner = 0; bool have_inner = a0 || a1;
+	if (a0) inner = 0; else if (a1) inner = ULONG_MAX;
+	for (unsigned k = 0; k < 200 && !have_inner; k++) { ul w = gen().next(); if (accepts(lv, m, w)) { inner = w; have_inner = true; } }
+	if (!have_inner) { propfail("rmod-bias", ctx + ": no accepted raw word found among 0, 2^64-1 and 200 random words"); return; }
+	if (!a0) { ul l = 0, r = inner; while (r - l > 1) { ul mid = l + (r - l) / 2; if (accepts(lv, m, mid)) r = mid; else l = mid; } lo = r; }      // smallest accepted
+	if (!a1) { ul l = inner, r = ULONG_MAX; while (r - l > 1) { ul mid = l + (r - l) / 2; if (accepts(lv, m, mid)) l = mid; else r = mid; } hi = (unsigned __int128)l + 1; }   // one past the largest accepted
+	unsigned __int128 size = hi - lo;
+	// spot checks that the set really is that interval
+	for (unsigned k = 0; k < 24; k++) {
+		ul w = gen().next(); bool in = ((unsigned __int128)w >= lo && (unsigned __int128)w < hi);
+		if (accepts(lv, m, w) != in) { propfail("rmod-bias", ctx + ": the accepted raw words are not one interval (word " + std::to_string(w) + ")"); return; }
+	}
+	if (size % m != 0) {
+		std::string his = (hi == W) ? "2^64" : std::to_string((ul)hi);
+		std::string sz = (size == W) ? "2^64" : std::to_string((ul)size);
+		propfail("rmod-bias", ctx + " accepts exactly the raw words [" + std::to_string((ul)lo) + ", " + his + ") and returns w mod m: " + sz +
+			" words is not a multiple of the modulus, so the residues are not equally likely");
+	}
 }
 
 static void one_m(int lv, mpz_srcptr m, bool record) {
@@ -94,6 +129,10 @@ int main(int argc, char **argv) {
 		ul half = 1UL << 63;
 		ul tail[] = { half - 1, half, half + 1, half + 2, half + 12345, (half / 2) * 3, ULONG_MAX / 3, ULONG_MAX / 3 + 1, ULONG_MAX / 2 + 2, ULONG_MAX - 2, ULONG_MAX - 1, ULONG_MAX };
 		for (ul m : tail) mods.push_back(m);
+		// well inside (2^63, 2^64): 3*2^62, 5*2^61, 7*2^61, 2^63 + 2^62 +- small, and random ones (2*m wraps around here)
+		ul inside[] = { 3UL << 62, 5UL << 61, 7UL << 61, (3UL << 62) + 1, (3UL << 62) - 1, (5UL << 61) + 12345, 11UL << 60, 13UL << 60, 15UL << 60, 0xC000000000000001UL, 0xDEADBEEFCAFEF00DUL };
+		for (ul m : inside) mods.push_back(m);
+		for (unsigned k = 0; k < (T ? 60u : 12u); k++) mods.push_back(half + 1 + gen().below(half - 1));
 		for (unsigned k = 0; k < (T ? 200u : 30u); k++) { ul m = gen().next() >> gen().below(63); if (m >= 2) mods.push_back(m); }
 		unsigned __int128 W = (unsigned __int128)1 << 64;
 		for (ul m : mods) {
@@ -109,6 +148,7 @@ int main(int argc, char **argv) {
 				one_mod(lv, m, script);
 				lv = (lv + 1) % 3;
 			}
+			bias_oracle(lv, m);
 			// the three quality levels behave identically on identical coins
 			ul w = gen().next(); ul r[3];
 			for (int l = 0; l < 3; l++) { coin_script().clear(); script_ulong(w); script_ulong(maxw); r[l] = call_mod(l, m); coin_script().clear(); }
